@@ -97,7 +97,14 @@ func jsonTokenValue(tok json.Token) string {
 	case bool:
 		return fmt.Sprintf("%t", t)
 	case float64:
-		str := strconv.FormatFloat(t, 'g', -1, 64)
+		// The shortest numeral that reads back to the same number: plain
+		// decimal notation unless the exponent makes it longer.
+		str := strconv.FormatFloat(t, 'f', -1, 64)
+
+		if exp := strconv.FormatFloat(t, 'g', -1, 64); len(exp) < len(str) {
+			str = exp
+		}
+
 		return str
 	case json.Number:
 		return string(t)
@@ -115,6 +122,11 @@ func (j *jsonParser) Pull() (node.Node, bool, error) {
 	}
 
 	tok, err := j.jsonReader.Token()
+
+	if err == io.EOF && len(j.stateStack) > 0 {
+		// The input ended inside an object or array.
+		return nil, false, io.ErrUnexpectedEOF
+	}
 
 	if err != nil {
 		return nil, false, err
